@@ -27,7 +27,13 @@ def class_methods(ix, relpath, cls):
 def self_field(node):
     """Field name F when `node` is an access path rooted at self.F (self.F, self.F[..], self.F[..][..], self.F.x)."""
     n = node
-    while isinstance(n, (ast.Subscript, ast.Attribute)):
+    while isinstance(n, (ast.Subscript, ast.Attribute, ast.Call)):
+        if isinstance(n, ast.Call):
+            # self.F.setdefault(k, []) / self.F.get(k) denote an element of self.F
+            if isinstance(n.func, ast.Attribute) and n.func.attr in ('setdefault', 'get'):
+                n = n.func.value
+                continue
+            return None
         if isinstance(n, ast.Attribute) and isinstance(n.value, ast.Name) and n.value.id == 'self':
             return n.attr
         n = n.value
@@ -182,6 +188,7 @@ def analyse_class(ctx, relpath, cls, rid):
                 if isinstance(t, ast.Attribute) and isinstance(t.value, ast.Name) and t.value.id == 'self' and t.attr in memo:
                     out.add(t.attr)
         return out
+    inlined_helpers = {h_.split(':')[-1] for _c, h_, _how in (getattr(ix.module(relpath), 'inlined', None) or [])}
     helper = {name: clears_in(f) for name, f in methods.items()}
     # straight-line helpers only: a helper counts when the clear is unconditional (top-level statement)
     for name, f in methods.items():
@@ -199,6 +206,8 @@ def analyse_class(ctx, relpath, cls, rid):
         for wname, wf in methods.items():
             if wname == '__init__' or wname in memo:
                 continue
+            if wname.startswith('_') and f'{cls}.{wname}' in inlined_helpers:
+                continue        # a private helper whose body was analysed inside every method that calls it
             writes = [(n, fl) for n, fl in write_nodes(wf) if fl in rfields]
             if not writes:
                 continue
@@ -682,7 +691,7 @@ def r5(ctx):
         elif tg:
             order[tgt] = tg
     ctx.emit('C16-R5', not problems and len(order) >= 3, FEATURES, f, f'sort(): {len(order)} index arrays tracked ({sorted(set(order.values()))}); ' +
-             ('no element-wise combination of differently ordered arrays' if not problems else '; '.join(problems)), key='sort:array-order',
+             ('no element-wise combination of differently ordered arrays' if not problems else '; '.join(problems)), key='sort:array-order', undecided=(not problems and len(order) < 3),
              what='FeatureContainer.sort combines a re-ordered array element-wise with an array in feature order')
     # the longest feature is computed per feature tuple (end - start of the same tuple)
     mxs = [s_ for s_ in stmts if src(s_.targets[0]).startswith('self.maxFeatureSizes[')]
